@@ -15,7 +15,7 @@ Wire formats
 * tokens  : `n:` then `P=`string | `S=`string | `O=`string separated by `,`
 * decode  : `n#text#text…!final-style|n<null>!ok` or `…!err:<class>`
 * seg     : `text~-~linkid` | `text~style|n<null>~linkid`, a list is `n:` seg `;` seg …
-* ops     : `W=`string | `F0` | `F1` separated by `,`   (F1: the console's print raised)
+* ops     : `W=`string | `F0` | `F1` separated by `,`   (F1: the console's print raised); `proxy_run2`: each prefixed `o` / `e`
 * events  : per op, separated by `/`:  events of that op separated by `,`:
             `T`text (print of a decoded Text, markup/emoji/highlight off) | `S=`string (print of a str,
             console defaults) | `R:`class
@@ -25,7 +25,7 @@ open RichModel RichModel.Proto RichModel.Ansi
 
 def decFlags (s : String) : Option Ansi.Cfg :=
   match s.toList.map (· == '1') with
-  | [a, b, c, d, e] => some ⟨StyleVariant.fixed, a, b, c, d, e⟩
+  | [a, b, c, d, e] => some ⟨a, b, c, d, e⟩
   | _ => none
 
 def decOptS (s : String) : Option (Option (List Char)) :=
@@ -164,6 +164,19 @@ def runPerOp (cfg : Ansi.Cfg) : Proxy → List Op → List (List Event)
     let a := p.step cfg op
     a.2 :: runPerOp cfg a.1 h
 
+/-- `o`/`e` prefix = stdout / stderr -/
+def decOp2 (s : String) : Option (Bool × Op) :=
+  if s.startsWith "o" then (decOp (s.drop 1).toString).map fun op => (false, op)
+  else if s.startsWith "e" then (decOp (s.drop 1).toString).map fun op => (true, op)
+  else none
+
+/-- events per operation of a two-stream history -/
+def run2PerOp (cfg : Ansi.Cfg) : Proxies → List (Bool × Op) → List (List Event)
+  | _, [] => []
+  | ps, (b, op) :: h =>
+    let a := (ps.get b).step cfg op
+    a.2 :: run2PerOp cfg (ps.set b a.1) h
+
 def handlers : List (String × (List String → String)) := [
   ("ansi_tokenize", fun a => match a with
     | [s] =>
@@ -192,11 +205,20 @@ def handlers : List (String × (List String → String)) := [
       | none => "bad-args"
     | _ => "bad-args"),
   ("ansi_encode", fun a => match a with           -- _render_buffer on a truecolor terminal
-    | [segs] => match decSegs segs with
-      | some gs => match encodeSegs gs with
+    | [legacy, segs] => match decSegs segs with
+      | some gs => match encodeSegs (decBool legacy) gs with
         | .ok s => "ok:" ++ encStr s
         | .error e => encEncErr e
       | none => "unmodelled"
+    | _ => "bad-args"),
+  ("proxy_run2", fun a => match a with        -- stdout + stderr proxies on one console (ops prefixed o / e)
+    | [fl, ops] => match decFlags fl with
+      | some cfg =>
+        match (if ops.isEmpty then some [] else (ops.splitOn ",").mapM decOp2) with
+        | some h =>
+          "/".intercalate ((run2PerOp cfg Proxies.init h).map fun evs => ",".intercalate (evs.map encEvent))
+        | none => "bad-args"
+      | none => "bad-args"
     | _ => "bad-args"),
   ("proxy_run", fun a => match a with
     | [fl, ops] => match decFlags fl with
